@@ -59,7 +59,7 @@ fn with_state<T>(f: impl FnOnce(&mut HState) -> T) -> T
 }
 
 fn sys_entity(s: u8) -> Option<Entity> { with_state(|st| st.sys.get(s as usize).copied().flatten()) }
-fn ent_entity(e: u8) -> Entity { with_state(|st| st.ent[e as usize]) }
+fn ent_entity(e: u8) -> Entity { with_state(|st| st.ent.get(e as usize).copied().unwrap_or(Entity::PLACEHOLDER)) }
 
 //----------------------------------------------------------------------------------------------------------------
 // system params
@@ -345,12 +345,21 @@ fn issue(op: &Op, r: i64, i: usize, c: &mut Commands, acc: Option<&mut Access>, 
     if let Op::SMut(e, x, _) | Op::SSet(e, x, _) | Op::SNo(e, x, _) = op
     {
         let want = ent_entity(*e);
-        let acc = acc.as_ref().expect("accessor op in exclusive system");
-        let holders: Vec<Entity> = if *x == 1 { acc.h1.iter().collect() } else { acc.h2.iter().collect() };
-        if holders != vec![want] { skipped = true; }
+        if let Some(acc) = acc.as_ref()
+        {
+            let holders: Vec<Entity> = if *x == 1 { acc.h1.iter().collect() } else { acc.h2.iter().collect() };
+            if holders != vec![want] { skipped = true; }
+        }
     }
     if let Some(s) = need_sys { if sys_entity(s).is_none() { skipped = true; } }
     if let Op::Revoke(k) = op { if !with_state(|st| st.tokens.contains_key(k)) { skipped = true; } }
+    // a script written for another kind of system (on a changed crate the runs may come in another order than the program's author
+    // - the model - expected): ops this system cannot perform are skipped, never a failure of the harness
+    let needs_acc = matches!(op, Op::ResMut(..) | Op::ResSet(..) | Op::ResNo(..) | Op::Mut(..) | Op::Set(..) | Op::NoReact(..) | Op::SMut(..) | Op::SSet(..)
+        | Op::SNo(..) | Op::WAdd(..) | Op::WRem(..) | Op::WRun(..) | Op::SysEvSig(..));
+    let needs_ew = matches!(op, Op::EAdd(..) | Op::ERem(..));
+    let imm = matches!(op, Op::IRun(..) | Op::ISysEv(..) | Op::IBc(..) | Op::IEEv(..));
+    if (needs_acc && acc.is_none()) || (needs_ew && ew.is_none()) || imm { skipped = true; }
     if skipped
     {
         emit(json!({"t":"issue","r":r,"i":i,"op":op.to_json(),"ret":-9}));
@@ -582,7 +591,7 @@ fn direct(w: &mut World, op: &Op)
             let e = ent_entity(*e);
             if *t == 1 { w.entity_event(e, B1(*p)); } else { w.entity_event(e, B2(*p)); }
         }
-        Op::XSysEv(s, p) => { w.send_system_event(SystemCommand(sys_entity(*s).unwrap()), P1(*p, None)); }
+        Op::XSysEv(s, p) => { if let Some(e) = sys_entity(*s) { w.send_system_event(SystemCommand(e), P1(*p, None)); } }
         _ => panic!("not a direct op: {:?}", op),
     }
 }
